@@ -1548,6 +1548,29 @@ def C13(tier):
 
 
 # ====================================================================== values (C01)
+class StrSub(str):
+    pass
+
+
+class BytesSub(bytes):
+    pass
+
+
+class IntSub(int):
+    pass
+
+
+class FloatSub(float):
+    pass
+
+
+import enum as _enum
+
+
+class Colour(str, _enum.Enum):
+    GREEN = 'green'
+
+
 def C01(tier):
     """Value corpus x thresholds x protocols x Disk/JSONDisk x every accessor."""
     import io
@@ -1555,8 +1578,10 @@ def C01(tier):
     import diskcache
     vals = [0, 1, -1, 2 ** 63 - 1, -2 ** 63, 2 ** 63, 2 ** 100, 0.0, -0.0, 1.5, inf, -inf, nan, 5e-324, '', 'a', 'a\rb\r\nc\n',
             '\x00', '\x85\u2028', '\U0001f600', 'é' * 40, b'', b'\x00\xff' * 30, None, True, False, (1, 'a', None), [1, [2, 3]],
-            {'k': (1, 2)}, frozenset([1, 2]), 'x' * 100, b'y' * 100]
-    jvals = [v for v in vals if isinstance(v, (int, float, str, type(None), bool)) and not isinstance(v, bytes)] + [[1, 'a', None], {'k': [1, 2]}]
+            {'k': (1, 2)}, frozenset([1, 2]), 'x' * 100, b'y' * 100,
+            # instances of subclasses of the natively stored types keep their type (they are not native)
+            StrSub(''), StrSub('short'), StrSub('x' * 100), BytesSub(b'ab'), BytesSub(b'z' * 100), IntSub(5), FloatSub(1.5), Colour.GREEN]
+    jvals = [v for v in vals if type(v) in (int, float, str, type(None), bool)] + [[1, 'a', None], {'k': [1, 2]}]
     bad = None
     cases = 0
     for diskname in ('Disk', 'JSONDisk'):
@@ -1600,7 +1625,7 @@ def C01(tier):
                 finally:
                     shutil.rmtree(d, ignore_errors=True)
     return [result('C01.standin.value_corpus', bad is None,
-                   '32 values x min_file_size {0,1,8,64,32768} x pickle protocols x Disk/JSONDisk x 9 accessors', cases, bad)]
+                   '40 values (incl. instances of subclasses of str/bytes/int/float) x min_file_size {0,1,8,64,32768} x pickle protocols x Disk/JSONDisk x 9 accessors', cases, bad)]
 
 
 # ====================================================================== transactions (C05 / C06 / C07)
